@@ -79,6 +79,7 @@ def strongly_connected_components[S](
     Single-node components with no self-loop are also returned.
     """
     node_list = list(nodes)
+    node_set = set(node_list)
     index_counter = [0]
     stack: list[S] = []
     on_stack: set[S] = set()
@@ -98,6 +99,8 @@ def strongly_connected_components[S](
         on_stack.add(v)
 
         for w in neighbors(v):
+            if w not in node_set:
+                continue  # the graph is the one induced by `nodes` (as in topological_sort)
             if w not in index:
                 strongconnect(w)
                 low_link[v] = min(low_link[v], low_link[w])
